@@ -76,6 +76,25 @@ def run_mode(case: dict[str, Any], mode: str, data: dict[str, Any]):
     return env, o, stage, nwarn, HOOK["n"]
 
 
+def through_error_hook(exc: BaseException) -> bool:
+    """Was the exception (or one it was raised from) raised while Environment.error / RenderContext.error was running?"""
+    seen = set()
+    cur: BaseException | None = exc
+    while cur is not None and id(cur) not in seen:
+        seen.add(id(cur))
+        tb = cur.__traceback__
+        while tb is not None:
+            code = tb.tb_frame.f_code
+            if code.co_name == "error" and code.co_filename.endswith(("liquid/environment.py", "liquid/context.py")) and tb.tb_next is not None:
+                # a deeper frame exists below error(): error() did not simply re-raise its argument
+                nxt = tb.tb_next.tb_frame.f_code
+                if not nxt.co_filename.endswith(("liquid/environment.py", "liquid/context.py")) or nxt.co_name != "error":
+                    return True
+            tb = tb.tb_next
+        cur = cur.__cause__ or cur.__context__
+    return False
+
+
 def construct_of(src: str) -> str:
     """Coarse mechanism id for a finding: first tag name in the (shrunk) source."""
     import re
@@ -123,10 +142,25 @@ def judge(ctx: core.Ctx, case: dict[str, Any]) -> None:
     _, o_w, st_w, w_w, h_w = run_mode(case, "warn", data)
     _, o_l, st_l, w_l, h_l = run_mode(case, "lax", data)
     ctx.count("warnings_recorded", w_w)
-    for name, o in (("strict", o_s), ("warn", o_w), ("lax", o_l)):
+    if not o_s.ok and not o_s.is_liquid_error:
+        ctx.count("non_liquid_error_forwarded_to_C02")
+        return  # strict mode itself lets a non-Liquid exception out: C02's subject; nothing to compare
+    for name, o, st in (("warn", o_w, st_w), ("lax", o_l, st_l)):
         if not o.ok and not o.is_liquid_error:
-            ctx.count("non_liquid_error_forwarded_to_C02")
-            return  # C02's subject; nothing to compare
+            # Attribution: strict mode is clean on this very input (so the foreign exception can only come from the mode), or the
+            # exception was raised inside the error-reporting path itself (Environment.error / RenderContext.error and below).
+            # Anything else is an ordinary escaping exception that strict mode merely did not reach: C02's subject.
+            if not (o_s.ok or through_error_hook(o.exc)):
+                ctx.count("non_liquid_error_forwarded_to_C02")
+                return
+            ctx.evaluations += 1
+            root = core.root_cause(o.exc)
+            ctx.violation(
+                f"{name}-crashes-{st}:{o.err_class}@{core.liquid_frame(root)}",
+                f"{name} mode let {o.err_class} ({str(o.exc)[:80]}) escape at {st} where strict mode gives {o_s.brief()!r:.120}: {case['source']!r:.200}",
+                {"tb": core.short_tb(o.exc)},
+            )
+            return
     strict_clean = o_s.ok
     ctx.count("strict_clean" if strict_clean else "strict_raised")
     if not strict_clean:
@@ -223,6 +257,16 @@ def gen_case(rng) -> dict[str, Any]:
     r = rng.random()
     g = tpl.Gen(rng, cfg)
     valid = tpl.print_nodes(g.template(1, 5), tpl.Style(wc=0.1), rng)
+    if rng.random() < 0.04:
+        # non-syntax Liquid errors raised while parsing: block nesting limit, inheritance errors
+        if rng.random() < 0.5:
+            src = deep_nest(rng, rng.choice([5, 28, 29, 30, 31, 32, 40]))
+        else:
+            src = rng.choice(INHERIT) + rng.choice(["", valid])
+            extra = True
+        data = tpl.make_data(rng, hostile=0.0, drop=0.2)
+        data["a"] = True
+        return {"source": src, "data": V.enc(data), "env": {"extra": extra, "flags": flags, "undefined": "default"}, "async": rng.random() < 0.25}
     if r < 0.35:
         src = valid
     elif r < 0.75:
@@ -237,6 +281,29 @@ def gen_case(rng) -> dict[str, Any]:
     return {"source": src, "data": V.enc(data), "env": env, "async": rng.random() < 0.25}
 
 
+def deep_nest(rng, depth: int) -> str:
+    """depth nested block tags (block_nesting_limit is 30 by default): a non-syntax error raised while parsing."""
+    openers = {
+        "if": "{% if a %}", "unless": "{% unless z %}", "for": "{% for i in (1..1) %}", "case": "{% case 1 %}{% when 1 %}", "capture": "{% capture c %}",
+        "tablerow": "{% tablerow i in (1..1) %}", "ifchanged": "{% ifchanged %}",
+    }
+    names = [rng.choice(list(openers)) for _ in range(depth)]
+    if rng.random() < 0.3:
+        # through a liquid tag
+        lines = []
+        for n in names:
+            lines.append(openers[n].replace("{% ", "").replace(" %}", "\n").replace("\n{%", "\n").strip())
+        body = "\n".join(x for l in lines for x in l.split("\n") if x) + "\necho 'x'\n" + "\n".join("end" + n for n in reversed(names))
+        return "a{% liquid\n" + body + "\n%}b"
+    return "a" + "".join(openers[n] for n in names) + "x" + "".join("{% end" + n + " %}" for n in reversed(names)) + "b"
+
+
+INHERIT = [
+    "{% block a %}x{% endblock b %}y", "{% block a %}{% block b %}x{% endblock a %}{% endblock b %}", "{% extends 'p' %}{% block a %}x{% endblock nope %}",
+    "{% block a required %}{% endblock %}z", "{% extends 'nope' %}x", "{% extends 'p' %}{% extends 'p' %}", "{% block a %}1{% endblock %}{% block a %}2{% endblock %}",
+    "{% macro 'm' %}{% block a %}x{% endblock b %}{% endmacro %}{% call 'm' %}",
+]
+
 HAND = [
     "{% if %}a{% endif %}b", "{% nosuch %}x", "{% else %}x", "{% break %}{% continue %}x", "{% for x in %}a{% endfor %}b", "{% if a %}x",
     "{% endif %}", "{{ a | nosuch }}", "{{ a b }}", "{% assign %}", "{% for i in (1..3) %}{% if i > %}x{% endif %}{{ i }}{% endfor %}",
@@ -247,8 +314,11 @@ HAND = [
 
 
 def cases(ctx: core.Ctx):
-    for s in HAND:
+    for s in HAND + INHERIT:
         yield {"source": s, "data": V.enc({"a": 1, "xs": [1, 2, 3]}), "env": {"extra": True}}
+    r0 = ctx.rng("deep")
+    for d in (29, 30, 31, 32):
+        yield {"source": deep_nest(r0, d), "data": V.enc({"a": 1}), "env": {"extra": False}}
     rng = ctx.rng("cases")
     for _ in range(ctx.budget(12000, 1_000_000)):
         yield gen_case(rng)
